@@ -1,4 +1,5 @@
 import A2lVerif.Lemmas.Include
+import A2lVerif.Lemmas.IncludeWriter
 /-!
 # C16 (tokenizer part) — `/include` resolution is plain inline expansion
 
@@ -430,3 +431,35 @@ example : incName #[47, 98, 101, 103, 105, 110, 32, 65, 50, 77, 76, 34, 47, 101,
     { ttype := .string, startpos := 11, endpos := 12, fileid := 0, line := 1 } = .panic := by decide +kernel
 
 end A2l.Inc
+
+/-! # C16 (writer part) — elements from include files are written as one `/include` directive per file
+
+Model: `Model/IncludeWriter.lean` (the `incfile` branch of `Writer::add_group`; the text of the elements that are written
+is opaque). The items arrive in the writer's order (uid order, i.e. file order after a load, name order after `sort()`). -/
+namespace A2l.IncW
+
+example (seen : List (List Char)) (it : Item) (rest : List Item) : go seen (it :: rest) =
+    match it.incfile with
+    | some f => if seen.contains f then go seen rest else .directive f :: go (f :: seen) rest
+    | none => .element it.name :: go seen rest := rfl
+
+/-- **one directive per include file**: no file is named twice, however the elements of different files interleave ... -/
+theorem each_include_once (items : List Item) : (directives (addGroup items)).Nodup :=
+  nodup_directives_go [] items
+
+/-- ... **and every file that contributed an element is named** (and no other) -/
+theorem include_iff_contributes (items : List Item) (f : List Char) :
+    f ∈ directives (addGroup items) ↔ ∃ it ∈ items, it.incfile = some f := by
+  rw [addGroup, mem_directives_go]
+  simp
+
+/-- **included elements are not written, the others are, in order** -/
+theorem only_own_elements_written (items : List Item) :
+    elements (addGroup items) = (items.filter fun it => it.incfile.isNone).map (·.name) :=
+  elements_go [] items
+
+/-- non-vacuity: two include files whose elements interleave after `sort()` -/
+example : addGroup [⟨['a'], some ['1']⟩, ⟨['b'], some ['2']⟩, ⟨['c'], some ['1']⟩, ⟨['d'], none⟩, ⟨['e'], some ['2']⟩] =
+    [.directive ['1'], .directive ['2'], .element ['d']] := by decide
+
+end A2l.IncW
